@@ -4,15 +4,18 @@ import Grol.Eval.RegRewrite
 Driver side of the `regrewrite` suite (C05): harness/cmd/harness/regrewrite.go.
 
   input: <noReg 0|1>;<registers in use>;<hex name>:<isInt>,…;<hex text>
-  obs:   <ast of the body> @@ e<eligible>o<ok>c<count>i<idx>k<kept>/… @@ <ast of the final body>
+  obs:   <ast of the body> @@ k<kept>i<idx>/… @@ <ast of the final body>     (P: parse error, E: the call is refused)
 
-`agree`: the decisions and the final tree of the real code = `Grol.RegRewrite.useRegisters` (the
-operational model: `modifyR`, the traversal of ast.Modify with the ModifyRegister callback).
+The real code is `(*State).extendFunctionEnv` (driven by the hook `eval.VerifSetupRegisters`); what is
+observable of its decisions is, per candidate, whether it got a register and which, and the body it
+returns (the number of replaced identifiers = the register nodes in it).
+`agree`: these = `Grol.RegRewrite.useRegisters` (the operational model: `modifyR`, the traversal of
+ast.Modify with the ModifyRegister callback).
 Statement (evaluated on the implementation's observation, using only the SPECIFICATION `refuses` /
 `substAll` / `registerEligible`, never `modifyR`): for every candidate in turn
-  * eligible ⇔ integer value ∧ name non-empty ∧ registers enabled ∧ a register is free ∧ not a constant name;
-  * if eligible: ok ⇔ ¬ refuses, the register is the next free one, kept ⇔ ok, count = number of identifier
-    nodes of that name;
+  * kept ⇔ integer value ∧ name non-empty ∧ registers enabled ∧ a register is free ∧ not a constant name ∧
+    ¬ refuses; the register is then the next free one, and the number of its nodes in the final tree is the
+    number of identifier nodes of that name;
   * the final tree is the body in which exactly the identifier nodes of the kept names became their registers
     (so erasing the registers gives back the body).
 -/
@@ -72,26 +75,21 @@ def parseRAst (s : String) : Option RNode :=
   | _ => none
 
 structure Flags where
-  eligible : Bool
-  ok : Bool
-  count : Nat
-  idx : Option Nat
   kept : Bool
+  idx : Option Nat
+  /-- number of identifiers replaced (register nodes of that candidate in the final body); 0 if not kept -/
+  count : Nat
   deriving BEq
 
 def Flags.render (f : Flags) : String :=
-  let b := fun (x : Bool) => if x then "1" else "0"
-  s!"e{b f.eligible}o{b f.ok}c{f.count}i{match f.idx with | some i => toString i | Option.none => "-1"}k{b f.kept}"
+  s!"k{if f.kept then "1" else "0"}i{match f.idx with | some i => toString i | Option.none => "-1"}c{f.count}"
 
-/-- `e1o1c3i0k1` -/
+/-- `k1i0` (the count is filled in from the final tree) -/
 def parseFlags (s : String) : Option Flags := do
-  let s ← if s.startsWith "e" then some (s.drop 1).toString else Option.none
-  let (e, s) ← match s.splitOn "o" with | [a, b] => some (a, b) | _ => Option.none
-  let (o, s) ← match s.splitOn "c" with | [a, b] => some (a, b) | _ => Option.none
-  let (c, s) ← match s.splitOn "i" with | [a, b] => some (a, b) | _ => Option.none
-  let (i, k) ← match s.splitOn "k" with | [a, b] => some (a, b) | _ => Option.none
+  let s ← if s.startsWith "k" then some (s.drop 1).toString else Option.none
+  let (k, i) ← match s.splitOn "i" with | [a, b] => some (a, b) | _ => Option.none
   let idx ← if i == "-1" then some Option.none else some <$> i.toNat?
-  pure { eligible := e == "1", ok := o == "1", count := ← c.toNat?, idx := idx, kept := k == "1" }
+  pure { kept := k == "1", idx := idx, count := 0 }
 
 structure Case where
   noReg : Bool
@@ -113,7 +111,15 @@ def parseInput (inp : String) : Option Case :=
 def startFile (used : Nat) : Reg.File := { regs := List.replicate 8 0, numReg := min used 8 }
 
 def flagsOf (d : Decision) : Flags :=
-  { eligible := d.eligible, ok := d.ok, count := if d.ok then d.count else 0, idx := d.idx, kept := d.kept }
+  { kept := d.kept, idx := if d.kept then d.idx else Option.none, count := if d.kept then d.count else 0 }
+
+/-- the implementation's flags with the counts read off the final tree it returned -/
+def withCounts (final : RNode) : List (String × Bool) → List Flags → List Flags
+  | (name, _) :: ns, f :: fs =>
+    { f with count := match f.kept, f.idx with
+        | true, some i => countReg name i final
+        | _, _ => 0 } :: withCounts final ns fs
+  | _, fs => fs
 
 /-- the specification run: what the flags and the final tree must be, from `registerEligible`, `refuses`,
 `substAll`, `countIdent` only -/
@@ -123,20 +129,23 @@ def specRun (noReg : Bool) : Nat → List (String × Bool) → RNode → List Fl
     let f : Reg.File := { regs := [], numReg := numReg }
     if !(isInt && registerEligible noReg f name) then
       let (fs, b) := specRun noReg numReg rest body
-      ({ eligible := false, ok := false, count := 0, idx := Option.none, kept := false } :: fs, b)
+      ({ kept := false, idx := Option.none, count := 0 } :: fs, b)
     else if refuses name numReg body then
       let (fs, b) := specRun noReg numReg rest body
-      ({ eligible := true, ok := false, count := 0, idx := some numReg, kept := false } :: fs, b)
+      ({ kept := false, idx := Option.none, count := 0 } :: fs, b)
     else
       let (fs, b) := specRun noReg (numReg + 1) rest (substAll name numReg body)
-      ({ eligible := true, ok := true, count := countIdent name body, idx := some numReg, kept := true } :: fs, b)
+      ({ kept := true, idx := some numReg, count := countIdent name body } :: fs, b)
 
 def runCase (inp obs : String) : CaseResult :=
-  if obs == "P" then { model := "P", agree := true, stmtModel := true, stmtImpl := true, nontrivial := false, tags := ["parse-error"] }
+  if obs == "P" || obs == "E" then
+    { model := obs, agree := true, stmtModel := true, stmtImpl := true, nontrivial := false,
+      tags := [if obs == "P" then "parse-error" else "call-refused"] }
   else match parseInput inp, obs.splitOn " @@ " with
   | some c, [astB, flagsS, astA] =>
     match parseAst astB, parseRAst astA, (if flagsS == "" then some [] else (flagsS.splitOn "/").mapM parseFlags) with
-    | some body, some implFinal, some implFlags =>
+    | some body, some implFinal, some implFlags0 =>
+      let implFlags := withCounts implFinal c.names implFlags0
       let (specFlags, specFinal) := specRun c.noReg (min c.used 8) c.names (embed body)
       let stmtImpl := implFlags == specFlags && implFinal == specFinal && embed (erase implFinal) == embed body
       match useRegisters c.noReg (startFile c.used) c.names 0 (embed body) with
@@ -144,14 +153,14 @@ def runCase (inp obs : String) : CaseResult :=
       | .ok (ds, final) =>
         let mFlags := ds.map flagsOf
         let model := "/".intercalate (mFlags.map Flags.render)
-        let tagOf (f : Flags) : String :=
-          if !f.eligible then "not-eligible" else if !f.ok then "refused" else if f.count == 0 then "ok-count0" else "rewritten"
+        let tagOf (d : Decision) : String :=
+          if !d.eligible then "not-eligible" else if !d.ok then "refused" else if d.count == 0 then "ok-count0" else "rewritten"
         { model := model ++ " @@ " ++ (if final == implFinal then "=" else reprStr final),
           agree := mFlags == implFlags && final == implFinal,
           stmtModel := mFlags == specFlags && final == specFinal,
           stmtImpl := stmtImpl,
-          tags := (mFlags.map tagOf).eraseDups,
-          nontrivial := mFlags.any (·.eligible) }
+          tags := (ds.map tagOf).eraseDups,
+          nontrivial := ds.any (·.eligible) }
     | _, _, _ => CaseResult.badLine
   | _, _ => CaseResult.badLine
 
